@@ -120,7 +120,10 @@ CLI_EXTRA_TEMPLATES = [
 ]
 EXPR_TEMPLATES = ["%Size() > 0", "%Name() +", "%Size() + 'x'", "1/0", "%Size() if len(%Name()) > 1 else %Name()", "lambda: 0",
                   "None", "%Name()", "(", ")", "%Name() == 'a' or 1/0", "[%Size()]", "{%Name(): 1}", "%Size() .real", "yield",
-                  "%Nope()", "%Name(", "'" * 3]
+                  "%Nope()", "%Name(", "'" * 3,
+                  # succeed for some files and fail for others: a lazily evaluated filter/sort would rename first
+                  "%Size() < 2 or 1/0", "%Size() > 1 or 1/0", "%Name() == 'a.txt' or %Size() + 'x'", "%Name() != 'a.txt' or 1/0",
+                  "%Size() if %Size() < 2 else 'x'", "%Name() if %Size() > 1 else %Size()"]
 
 
 def gen_cli(rng, n, tier):
